@@ -1,3 +1,6 @@
+pub mod c04;
+pub mod c05;
+pub mod c05d;
 pub mod c20;
 
 use crate::engine::Ctx;
@@ -8,8 +11,12 @@ pub struct PropDef {
     pub run: fn(&mut Ctx),
     /// thorough tier forks this many worker processes (1 = in-process)
     pub shards: u32,
+    /// run under a supervising parent that turns a crash of the process into a violation
+    pub isolate: bool,
 }
 
 pub const PROPS: &[PropDef] = &[
-    PropDef { id: "C20", level: "exploration", run: c20::run, shards: 8 },
+    PropDef { id: "C04", level: "exploration", run: c04::run, shards: 12, isolate: false },
+    PropDef { id: "C05", level: "exploration", run: c05::run, shards: 12, isolate: true },
+    PropDef { id: "C20", level: "exploration", run: c20::run, shards: 8, isolate: false },
 ];
